@@ -818,6 +818,15 @@ class Interp(Engine):
                     for k in range(hi - 1, -1, -1):
                         r = z3.If(ex == k, z3.IntVal(a ** k), r)
                     return V(r, INT)
+            if isinstance(a, int) and a >= 2 and self.entails(st, ex >= 0):
+                # larger exponents: exact below 64, and for k >= 64 some value that is at least a**64 (monotonicity of
+                # the power; all that a comparison against a moderate constant needs)
+                big = self.fresh_term('pow_big', z3.IntSort(), st)
+                st.assume(z3.Implies(ex >= 64, big >= a ** 64))
+                r = big
+                for k in range(63, -1, -1):
+                    r = z3.If(ex == k, z3.IntVal(a ** k), r)
+                return V(r, INT)
             raise Outside("symbolic exponent without a small proven range")
         raise Outside("symbolic ** symbolic")
 
